@@ -136,6 +136,7 @@ theorem forthTy_elem_irrelevant (t : OrsoTy) (h : t ≠ .ARRAY) (e : Option Orso
 /-- From the type-level round trip to the column built by `from_arrow(col.arrow_field)`. -/
 theorem roundtripCol_of_backTy (name : String) (t : OrsoTy) (e : Option OrsoTy) (p s : Option Nat)
     (nullable : Bool) (r : OrsoTy × Option OrsoTy × Option Nat × Option Nat)
+    (hn : Gen.Arrow.carriesName = true) (hp : Gen.Arrow.fieldPassesName = true)
     (h : backTy false (forthTy t e p s) = some r) :
     ∃ c', roundtripCol ⟨name, t, e, p, s, nullable⟩ = some c' ∧ c'.type = r.1 ∧ c'.elem = r.2.1 ∧
       c'.precision = (normalise r.1 r.2.2.1 r.2.2.2).1 ∧ c'.scale = (normalise r.1 r.2.2.1 r.2.2.2).2 ∧
@@ -143,6 +144,6 @@ theorem roundtripCol_of_backTy (name : String) (t : OrsoTy) (e : Option OrsoTy) 
   obtain ⟨t', e', p', s'⟩ := r
   simp only [roundtripCol, fromArrowField, arrowField, h]
   refine ⟨_, rfl, ?_⟩
-  exact ⟨rfl, rfl, rfl, rfl, by simp [Gen.Arrow.carriesName, Gen.Arrow.fieldPassesName]⟩
+  exact ⟨rfl, rfl, rfl, rfl, by simp [hn, hp]⟩
 
 end Arrow
